@@ -40,6 +40,7 @@ type Program struct {
 	// per-program memo of derived facts (one goroutine analyses one Program, so no locking)
 	memoRoles       *roles
 	memoIndexFacts  *indexFacts
+	memoProjEff     sync.Map
 	memoHelperFacts *helperFacts
 	memoNumRoles    *numRoles
 	memoLitHelpers  map[string]*ssa.Function
